@@ -184,11 +184,29 @@ def _literal_cases(tier, rng):
         out.append('%dE+%d' % (i, i % 7))
         out.append('%d.5E-%d' % (i, i % 5))
         out.append('%de+2' % i)
+    for e in ERROR_LITERALS:
+        out += [e, e.lower(), e.capitalize()]
     return out
+
+
+ERROR_LITERALS = ['#NULL!', '#DIV/0!', '#VALUE!', '#REF!', '#NUM!', '#NAME?', '#N/A']
 
 
 def _check_literal(lit):
     import formulas
+    if lit.startswith('#'):
+        # error literals in any letter case denote the error value (and never raise a foreign exception)
+        import numpy as np
+        from formulas.tokens.operand import XlError
+        for text in ('=' + lit, '=' + lit + '+1', '=ISERROR(' + lit + ')'):
+            try:
+                v = np.asarray(formulas.Parser().ast(text)[1].compile()(), object).ravel()[0]
+            except Exception as ex:
+                return 'error literal in %r raised %s' % (text, type(ex).__name__)
+            want = True if text.startswith('=ISERROR') else lit.upper()
+            if not ((v is True or v == True) if want is True else (isinstance(v, XlError) and str(v) == want)):   # noqa: E712
+                return 'error literal in %r evaluates to %r' % (text, v)
+        return None
     try:
         v = formulas.Parser().ast('=' + lit)[1].compile()()
         import numpy as np
@@ -220,7 +238,35 @@ def _check_array(lens):
     return None
 
 
+# ---- listed texts outside the grammar that no generator above spells (each must be rejected with the syntax error) ----
+LISTED_MALFORMED = ['=ANCHORARRAY(A1:B2)', '=ANCHORARRAY(A1:B2)+1', '=1< >2', '=1<  =2', '=1> =2', '=A1< >B1', '={1))', '=(1}', '={1)', '=1 2',
+                    '="a" "b"', '=1+', '=*2', '=SUM(1', '=SUM 1)', '=1)', '=((1)', '={1,2;3}', '=#REF', '=1..2', '=1E', '=1e+']
+
+
+def _check_listed(text):
+    kind, detail = _run(text)
+    if kind == 'foreign':
+        return '%r raised %s instead of the formula-syntax error' % (text, detail)
+    if kind == 'ok':
+        return '%r is outside the grammar but was accepted and read as %s' % (text, detail)
+    return None
+
+
+def _classify_listed(text, detail):
+    if 'ANCHORARRAY' in text and 'DispatcherError' in detail:
+        return 'KF-C18-9'
+    if 'accepted' in detail and any(x in text.replace('  ', ' ') for x in ('< >', '< =', '> =')):
+        return 'KF-C18-10'
+    if text == '={1))' and 'accepted' in detail:
+        return 'KF-C18-5'
+    return None
+
+
 BOUNDED = [
+    Stage('B1:listed-malformed-texts', 'C18', lambda tier, rng: list(LISTED_MALFORMED), _check_listed,
+          '%d listed texts outside the grammar (spill operator on a range, blanks inside a two-character operator, mixed brackets, missing '
+          'operands, truncated literals): each is rejected with the syntax error' % len(LISTED_MALFORMED), parallel=False,
+          classify=_classify_listed, case_timeout=5.0),
     Stage('B1:array-literal-shapes', 'C18', _array_cases, _check_array,
           'array literals with 1..4 rows of every combination of lengths 1..3 (120 shapes) in three contexts: rectangular accepted, ragged rejected',
           exhaustive=True, parallel=False, case_timeout=5.0),
@@ -233,7 +279,7 @@ BOUNDED = [
           'every single delete / insert / replace of 29 pieces in 14 valid formulas, plus random printable strings (4000 quick / 80 000 '
           'thorough): only the formula-syntax error escapes', classify=_classify_text, max_report=30, case_timeout=5.0),
     Stage('B1:numeric-literals', 'C18', _literal_cases, _check_literal,
-          '320 numeric literals (leading zeros, decimals, exponents): accepted with their numeric value', parallel=False, case_timeout=5.0),
+          '320 numeric literals (leading zeros, decimals, exponents): accepted with their numeric value; the 7 error literals in 3 letter cases denote their error value', parallel=False, case_timeout=5.0),
 ]
 
 PROPERTIES = {
